@@ -1,6 +1,7 @@
 import BoltonsVerif.Common
 import BoltonsVerif.C12.Model
 import BoltonsVerif.C12.Model3
+import BoltonsVerif.C12.Model4
 import BoltonsVerif.Generated.C12_Consts
 /-
 C12 line protocol.  One line = one whole case.
@@ -11,36 +12,47 @@ C12 line protocol.  One line = one whole case.
                 code's catch-all handlers do to the state exactly what the timeout handlers do, so again
                 the same model event; the outcome is printed `oserror` instead of `timeout` - the class of a
                 raised fault is the model's own bookkeeping, `BSock.rtags` / `dcall`, theorem `fault_class_exact`) | <hex> (a chunk)
-       op     : r<n> recv(n) | p<n> peek(n) | s<n> recv_size(n)
+       op     : r<n>[@<obs>]* recv(n) | p<n> peek(n) | s<n> recv_size(n)
               | u<w:0|1>:<max>:<hexdelim|-> recv_until | c<max> recv_close | m<n> setmaxsize(n)
+       obs    : what ONE attempt of recv did on the implementation (round 3c: recv is an acceptance step, Model4.lean):
+                <res>~<getrecvbuffer() hex|->~<bytes the network still holds>~<faults the network still holds>
+                res : v<hex|-> returned | T raised Timeout | E raised the socket's OSError | X anything else (never accepted)
+                each obs is checked by `daccRecv` / `acceptRecv` against the model's state (the statement's recv clause)
+                and the model CONTINUES FROM THE OBSERVED STATE; the record echoes the observation, or `rejected`.
+                Without obs the model's own `recv` is run (as before).
        max    : U (argument omitted -> constructor maxsize) | N (None -> _RECV_LARGE_MAXSIZE) | <n>
        retry=1: an op that raised Timeout is called again, at most (#t events + 1) attempts in total
      output: one record per attempt, `;`-joined:  <res>/<rbuf hex>
        res : ok:<hex|-> | closed | toolong | timeout | oserror | fuel
-       retry=1 appends ` #<final result of every call, `,`-joined>/<final rbuf>|<number of operations>`
-       computed by `runCalls` / `resolveCalls`
+       a framing call (p s u c) may carry `@<obs>` per attempt as well: the model computes the attempt and is then
+       re-seated on the observed split when that is a split of the same bytes owed (`reseat`; the res part is ignored)
+       retry=1 appends ` #<final result of every call, `,`-joined>/<final rbuf ++ undelivered>|<number of operations>`
+       computed by `runMixed` over `resolveMixed` (= `runCalls` / `resolveCalls` when no recv was observed)
   tx <script> <op> ...
        script : `-` | `a<k>` (send accepts at most k bytes) | `t` | `w` (SEv.clock) | `e` (transient
                 OSError from sock.send: SEv.timeout, printed `oserror`), joined by `,`
-       op     : s<hex|-> send / sendall | b<hex|-> buffer | f flush
+       op     : s<hex|->[@<offers>] send / sendall | b<hex|-> buffer | f[@<offers>] flush
+       offers : `.`-joined: how many bytes each `sock.send` of that call was given (observed; only written when some
+                call offered less than the whole buffer): `dsopA` / `sendLoopA`; without it the whole buffer (`dsop`)
      output per op:  <res>/<getsendbuffer hex>/<wire hex> ; res : sent:<n> | none | timeout | oserror
        followed by ` #<faults of the script still unused>` (`nSF` after `srun`)
-  ns <maxsize> <wscript> <cuts> <nreads> <rcfg> <payloadhex|-> ...
+  ns <maxsize> <wscript> <cuts> <nreads> <rcfg> <payloadhex|->[@<offers|_>]* ...
        rcfg : how the reading NetstringSocket is configured: `c<n>` (constructor maxsize) then any number
               of `s<n>` (setmaxsize) then optionally `a<n>` (read_ns(maxsize=n)), joined by `,`
        every payload is written with write_ns (after a Timeout: flush until done, bounded);
        the wire is cut into chunks of the given sizes (`-` = one chunk; remainder = last chunk)
        and read back with nreads read_ns calls.
      output: W:<per-write results `,`-joined>;<wire hex>;<per-read results `,`-joined>
-  nsr <rcfg> <script> <nreads>          read_ns over an arbitrary script
+  nsr <rcfg> <script> <nreads> [<split>]*   read_ns over an arbitrary script; split = <rbuf hex|->~<und>~<faults left>
+       observed after each read_ns: the model continues from that split when it is a split of the same view (`reseat`)
+     output: per read `,`-joined <res>/<rbuf ++ undelivered, hex>
   dx <recvsize> <maxsize> <rscript> <sscript> <op> ...     ONE BufferedSocket, receive and send calls interleaved
-       op : R<rx op as above> | RF<size>:<flags> recv(size, flags) | S<tx op as above> | SF<hex|->:<flags> send(data, flags)
+       op : R<rx op as above> | RF<size>:<flags>[@<obs>] recv(size, flags) | S<tx op as above> | SF<hex|->:<flags>[@<offers>] send(data, flags)
      output per op: <res>/<rbuf hex>/<getsendbuffer hex>/<wire hex>, `;`-joined, then ` #<send faults left>`
        res : ok:<hex|-> | closed | toolong | none | sent:<n> | timeout | oserror | valueerror
      computed by `drun` (Model3.lean): fault classes come from `BSock.rtags` / `stags`
   duo <line> | <line>                   two independent sockets (the harness interleaves their calls):
                                         output `<out> | <out>`
-     output: per read `,`-joined <res>/<rbuf hex>
   int <hex|->                             the model of Python's int(bytes): the value or `err`
   consts                                  the generated constants
 -/
@@ -116,15 +128,89 @@ def showDOut : DOut → String
   | .fault .osError => "oserror"
   | .valueError => "valueerror"
 
-/-- one call with the harness's retry discipline (again after a fault, at most `k` attempts); a record per attempt -/
-def runCallD (c : Call) : Nat → BSock → List String → BSock × List String
-  | 0, b, acc => (b, acc)
-  | k + 1, b, acc =>
-    let (out, b') := dcall Gen.RECV_LARGE_MAXSIZE c b
+/-! ### round 3c: observed recv attempts (acceptance steps) -/
+
+abbrev Obs := Option (RecvObs × Fault)     -- `none` = an outcome that is never acceptable (`X`)
+
+def parseObs? (s : String) : Option Obs :=
+  match splitOnChar s '~' with
+  | [r, rb, u, f] =>
+    if r = "X" then some none else
+    match hexToNats? rb, u.toNat?, f.toNat? with
+    | some rb, some u, some f =>
+      if r = "T" then some (some (⟨none, rb, u, f⟩, .timeout))
+      else if r = "E" then some (some (⟨none, rb, u, f⟩, .osError))
+      else if r.front = 'v' then
+        (hexToNats? (r.drop 1).toString).map fun v => some (⟨some v, rb, u, f⟩, .timeout)
+      else none
+    | _, _, _ => none
+  | _ => none
+
+def parseObsList? (l : List String) : Option (List Obs) :=
+  l.foldr (fun o acc => match acc, parseObs? o with
+    | some l, some x => some (x :: l) | _, _ => none) (some [])
+
+/-- the split observed after an attempt (`none`: nothing usable was observed) -/
+def seatOf : List Obs → Option RecvObs
+  | some (o, _) :: _ => some o
+  | _ => none
+
+/-- one framing call with the harness's retry discipline (again after a fault, at most `k` attempts); a record per
+    attempt.  The model computes the attempt; then it is re-seated on the split observed after that attempt when that
+    is a split of the same bytes owed (`dseat` / `reseat`) - the value is pinned, the split is free. -/
+def runCallD (c : Call) (s0 : List Ev) : Nat → List Obs → BSock → List String → BSock × List String
+  | 0, _, b, acc => (b, acc)
+  | k + 1, seats, b, acc =>
+    let (out, b1) := dcall Gen.RECV_LARGE_MAXSIZE c b
+    let b' := dseat s0 (seatOf seats) b1
     let rec_ := s!"{showDOut out}/{natsToHex b'.rx.rbuf}"
     match out with
-    | .fault _ => runCallD c k b' (rec_ :: acc)
+    | .fault _ => runCallD c s0 k seats.tail b' (rec_ :: acc)
     | _ => (b', rec_ :: acc)
+
+/-- a receive-side token: the call, and what was observed of its attempts written behind it (`@`-joined) -/
+def parseRxTok? (tok : String) : Option (Call × List Obs) :=
+  match splitOnChar tok '@' with
+  | [] => none
+  | c :: obs =>
+    match parseCall? c, parseObsList? obs with
+    | some call, some l => some (call, l)
+    | _, _ => none
+
+/-- recv(size) with its observed attempts: each one is accepted (or not) against the model's state and the
+    model continues from the observed state; after a fault comes the next attempt -/
+def runRecvD (size : Nat) : List Obs → BSock → List String → BSock × List String
+  | [], b, acc => (b, acc)
+  | none :: _, b, acc => (b, s!"rejected/{natsToHex b.rx.rbuf}" :: acc)
+  | some (o, cls) :: rest, b, acc =>
+    match daccRecv size o cls b with
+    | none => (b, s!"rejected/{natsToHex b.rx.rbuf}" :: acc)
+    | some (out, b') =>
+      let rec_ := s!"{showDOut out}/{natsToHex b'.rx.rbuf}"
+      match out with
+      | .fault _ => runRecvD size rest b' (rec_ :: acc)
+      | _ => (b', rec_ :: acc)
+
+def toMCall : Call × List Obs → Option MCall
+  | (.recv n, o :: os) =>
+    ((o :: os).foldr (fun o acc => match acc, o with
+      | some l, some (x, _) => some (x :: l) | _, _ => none) (some [])).map (MCall.recvObs n)
+  | (c, obs) => some (.call c (seatOf obs.reverse))        -- the split after the LAST attempt
+
+/-- one final result per call that has one (not setmaxsize): of an observed recv, that of its last attempt -/
+def finalsOf (large : Nat) : Nat → List MCall → List Res → List Res
+  | _, [], _ => []
+  | selfMax, .call c _ :: cs, rs =>
+    match c.op large selfMax with
+    | some _ =>
+      match rs with
+      | r :: rs' => r :: finalsOf large selfMax cs rs'
+      | [] => []
+    | none => finalsOf large (c.nextMax selfMax) cs rs
+  | selfMax, .recvObs _ obs :: cs, rs =>
+    match (rs.take obs.length).getLast? with
+    | some r => r :: finalsOf large selfMax cs (rs.drop obs.length)
+    | none => finalsOf large selfMax cs rs
 
 def handleRx (toks : List String) : String :=
   match toks with
@@ -137,10 +223,13 @@ def handleRx (toks : List String) : String :=
         match ops with
         | [] => some acc.reverse
         | t :: ts =>
-          match parseCall? t with
-          | some c =>
+          match parseRxTok? t with
+          | some (.recv n, o :: os) =>
+            let (b', acc') := runRecvD n (o :: os) b acc
+            go b' ts acc'
+          | some (c, seats) =>
             -- setmaxsize never raises, so it gets its single record either way
-            let (b', acc') := runCallD c tries b acc
+            let (b', acc') := runCallD c evs tries seats b acc
             go b' ts acc'
           | none => none
       match go ⟨cfg, ⟨[], evs⟩, ⟨[], [], []⟩, tagsOf script, []⟩ ops [] with
@@ -149,12 +238,19 @@ def handleRx (toks : List String) : String :=
         if retry = "1" then
           -- the same session through `runCalls` (every call retried until it no longer times out):
           -- final results, final rbuf, and how many operations the calls resolve to
-          match ops.foldr (fun t acc => match acc, parseCall? t with
+          match ops.foldr (fun t acc => match acc, parseRxTok? t with
               | some l, some c => some (c :: l) | _, _ => none) (some []) with
-          | some calls =>
-            let (rs, stf) := runCalls Gen.RECV_LARGE_MAXSIZE cfg calls ⟨[], evs⟩
-            let nops := (resolveCalls Gen.RECV_LARGE_MAXSIZE cfg.maxsize calls).length
-            s!"{body} #{",".intercalate (rs.map showRes)}/{natsToHex stf.rbuf}|{nops}"
+          | some pcalls =>
+            let nops := (resolveCalls Gen.RECV_LARGE_MAXSIZE cfg.maxsize (pcalls.map (·.1))).length
+            match pcalls.foldr (fun p acc => match acc, toMCall p with
+                | some l, some m => some (m :: l) | _, _ => none) (some []) with
+            | some mcalls =>
+              match runMixed cfg evs (resolveMixed Gen.RECV_LARGE_MAXSIZE cfg.maxsize mcalls) ⟨[], evs⟩ with
+              | some (rs, stf) =>
+                let fin := finalsOf Gen.RECV_LARGE_MAXSIZE cfg.maxsize mcalls rs
+                s!"{body} #{",".intercalate (fin.map showRes)}/{natsToHex stf.view}|{nops}"
+              | none => s!"{body} #rejected"
+            | none => s!"{body} #rejected"
           | none => "bad-op"
         else body
       | none => "bad-op"
@@ -180,6 +276,21 @@ def parseSOp? (tok : String) : Option SOp :=
   | 'f' => if rest = "" then some .flush else none
   | _ => none
 
+/-- `.`-joined numbers -/
+def parseOffers? (s : String) : Option (List Nat) :=
+  (splitOnChar s '.').foldr (fun w acc => match acc, w.toNat? with
+    | some l, some n => some (n :: l) | _, _ => none) (some [])
+
+/-- a send-side token with the offers observed for that call (`[]` = none written = the whole buffer) -/
+def parseSOpA? (tok : String) : Option (List Nat × SOp) :=
+  match splitOnChar tok '@' with
+  | [t] => (parseSOp? t).map fun o => ([], o)
+  | [t, offs] =>
+    match parseSOp? t, parseOffers? offs with
+    | some o, some l => some (l, o)
+    | _, _ => none
+  | _ => none
+
 def showSRes : SRes → String
   | .sent n => s!"sent:{n}"
   | .none => "none"
@@ -193,15 +304,15 @@ def handleTx (toks : List String) : String :=
       let rec go (b : BSock) (ops : List String) (acc : List String) : Option (List String) :=
         match ops with
         | [] => some acc.reverse
-        | t :: ts => match parseSOp? t with
-          | some op =>
-            let (out, b') := dsop op b
+        | t :: ts => match parseSOpA? t with
+          | some (offers, op) =>
+            let (out, b') := dsopA offers op b        -- `dsopA [] = dsop` (theorem `offers_absent_is_verified_loop`)
             go b' ts (s!"{showDOut out}/{natsToHex b'.tx.getsendbuffer}/{natsToHex b'.tx.wire}" :: acc)
           | none => none
       match go ⟨⟨1, 0⟩, ⟨[], []⟩, ⟨[], [], evs⟩, [], tagsOf script⟩ ops [] with
       | some outs =>
         -- faults of the script not used up by the whole history
-        let left := nSF (srun (ops.filterMap parseSOp?) ⟨[], [], evs⟩).2.script
+        let left := nSF (srunA (ops.filterMap parseSOpA?) ⟨[], [], evs⟩).2.script
         s!"{if outs.isEmpty then "-" else ";".intercalate outs} #{left}"
       | none => "bad-op"
     | none => "bad-op"
@@ -226,6 +337,25 @@ def flushUntil : Nat → SSt → String → SSt × String
     match flush st with
     | (.timeout, st') => flushUntil k st' (acc ++ "+timeout")
     | (_, st') => (st', acc ++ "+flushed")
+
+/-- the same with the offers observed for each flush (`[]` = the whole buffer) -/
+def flushUntilA : Nat → List (List Nat) → SSt → String → SSt × String
+  | 0, _, st, acc => (st, acc)
+  | k + 1, offs, st, acc =>
+    match flushA (offs.headD []) st with
+    | (.timeout, st') => flushUntilA k offs.tail st' (acc ++ "+timeout")
+    | (_, st') => (st', acc ++ "+flushed")
+
+/-- a payload token: `<hex|->[@<offers|_>]*` - the offers of the write_ns call, then of each flush that followed it
+    (`_` = the whole buffer every time) -/
+def parsePayloadA? (tok : String) : Option (Bytes × List (List Nat)) :=
+  match splitOnChar tok '@' with
+  | [] => none
+  | p :: offs =>
+    match hexToNats? p, offs.foldr (fun w acc => match acc, (if w = "_" then some [] else parseOffers? w) with
+        | some l, some o => some (o :: l) | _, _ => none) (some []) with
+    | some b, some l => some (b, l)
+    | _, _ => none
 
 def nSTimeouts (s : List SEv) : Nat := (s.filter (fun e => e == .timeout || e == .clock)).length
 
@@ -259,15 +389,16 @@ def handleNs (toks : List String) : String :=
   match toks with
   | ms :: wscript :: cuts :: nreads :: rcfg :: payloads =>
     match ms.toNat?, parseSScript? wscript, natList? cuts, nreads.toNat?, parseRcfg? rcfg,
-          payloads.foldr (fun p acc => match acc, hexToNats? p with
+          payloads.foldr (fun p acc => match acc, parsePayloadA? p with
             | some l, some b => some (b :: l) | _, _ => none) (some []) with
     | some ms, some wscript, some cuts, some nreads, some (ns, arg), some payloads =>
       let bound := nSTimeouts wscript + 1
-      let (wst, wouts) := payloads.foldl (fun (acc : SSt × List String) p =>
-        match writeNs ms p acc.1 with
+      let (wst, wouts) := payloads.foldl (fun (acc : SSt × List String) (p : Bytes × List (List Nat)) =>
+        -- `writeNsA [] = writeNs`, `flushA [] = flush`: without observed offers this is the verified loop
+        match writeNsA (p.2.headD []) ms p.1 acc.1 with
         | (.ok, st') => (st', "ok" :: acc.2)
         | (.nsTooLong, st') => (st', "nstoolong" :: acc.2)
-        | (.timeout, st') => let (st'', s) := flushUntil bound st' "timeout"; (st'', s :: acc.2))
+        | (.timeout, st') => let (st'', s) := flushUntilA bound p.2.tail st' "timeout"; (st'', s :: acc.2))
         (⟨[], [], wscript⟩, [])
       let script := cutChunks cuts wst.wire
       let (rres, _) := NsSock.readNsManyI nsCfg ns arg nreads ⟨[], script⟩
@@ -277,17 +408,24 @@ def handleNs (toks : List String) : String :=
 
 def handleNsr (toks : List String) : String :=
   match toks with
-  | [rcfg, script, nreads] =>
-    match parseRcfg? rcfg, parseScript? script, nreads.toNat? with
-    | some (ns, arg), some script, some nreads =>
-      let rec go : Nat → St → List String → List String
-        | 0, _, acc => acc.reverse
-        | k + 1, st, acc =>
+  | rcfg :: script :: nreads :: splits =>
+    match parseRcfg? rcfg, parseScript? script, nreads.toNat?,
+          splits.foldr (fun w acc => match acc, parseObs? ("T~" ++ w) with
+            | some l, some (some (o, _)) => some (o :: l) | _, _ => none) (some []) with
+    | some (ns, arg), some script, some nreads, some splits =>
+      -- after every read_ns the model is re-seated on the observed split of the same view (`reseat`):
+      -- the split left by the final recv(1) is free, the bytes still owed are not
+      let rec go : Nat → St → List RecvObs → List String → List String
+        | 0, _, _, acc => acc.reverse
+        | k + 1, st, sp, acc =>
           let (r, st') := ns.readNsI nsCfg arg st
-          go k st' (s!"{showNsRes r}/{natsToHex st'.rbuf}" :: acc)
-      let outs := go nreads ⟨[], script⟩ []
+          let st'' := match sp with
+            | o :: _ => reseat script o st'
+            | [] => st'
+          go k st'' sp.tail (s!"{showNsRes r}/{natsToHex st'.view}" :: acc)
+      let outs := go nreads ⟨[], script⟩ splits []
       if outs.isEmpty then "-" else ",".intercalate outs
-    | _, _, _ => "bad-op"
+    | _, _, _, _ => "bad-op"
   | _ => "bad-op"
 
 /-! ### dx: the one-object model (`BSock`, `drun`) -/
@@ -313,23 +451,57 @@ def parseDOp? (tok : String) : Option DOp :=
     else (parseSOp? rest).map DOp.sop
   | _ => none
 
+/-- a dx op as it reaches the driver: a plain model call, an observed recv, a send-side call with offers -/
+inductive XOp where
+  | plain (o : DOp)
+  | callSeat (c : Call) (o : Obs)
+  | recvObs (size : Nat) (o : Obs)
+  | sopA (offers : List Nat) (o : SOp)
+
+def parseXOp? (tok : String) : Option XOp :=
+  match splitOnChar tok '@' with
+  | [t] => (parseDOp? t).map XOp.plain
+  | [t, x] =>
+    match parseDOp? t with
+    | some (.call (.recv n)) => (parseObs? x).map (XOp.recvObs n)
+    | some (.call c) => (parseObs? x).map (XOp.callSeat c)
+    | some (.recvFlags n 0) => (parseObs? x).map (XOp.recvObs n)
+    | some (.sop o) => (parseOffers? x).map fun l => XOp.sopA l o
+    | some (.sendFlags d 0) => (parseOffers? x).map fun l => XOp.sopA l (.send d)
+    | _ => none
+  | _ => none
+
 def handleDx (toks : List String) : String :=
   match toks with
   | rs :: ms :: rscript :: sscript :: ops =>
     match rs.toNat?, ms.toNat?, parseScript? rscript, parseSScript? sscript,
-          ops.foldr (fun t acc => match acc, parseDOp? t with
+          ops.foldr (fun t acc => match acc, parseXOp? t with
             | some l, some o => some (o :: l) | _, _ => none) (some []) with
     | some rs, some ms, some revs, some sevs, some dops =>
       let b0 : BSock := ⟨⟨rs, ms⟩, ⟨[], revs⟩, ⟨[], [], sevs⟩, tagsOf rscript, tagsOf sscript⟩
-      -- one record per call: replay the prefix states through `dstep` (the same function `drun` folds)
-      let rec go (b : BSock) (ops : List DOp) (acc : List String) : List String × BSock :=
+      -- one record per call: `dstep` (the function `drun` folds) for model calls, `daccRecv` for an observed
+      -- recv (the model continues from the observed state), `dsopA` for a send-side call with observed offers
+      let show4 (out : String) (b' : BSock) : String :=
+        s!"{out}/{natsToHex b'.rx.rbuf}/{natsToHex b'.tx.getsendbuffer}/{natsToHex b'.tx.wire}"
+      let rec go (b : BSock) (ops : List XOp) (acc : List String) : List String × BSock :=
         match ops with
         | [] => (acc.reverse, b)
-        | o :: os =>
+        | .plain o :: os =>
           let (out, b') := dstep Gen.RECV_LARGE_MAXSIZE o b
-          go b' os (s!"{showDOut out}/{natsToHex b'.rx.rbuf}/{natsToHex b'.tx.getsendbuffer}/{natsToHex b'.tx.wire}" :: acc)
-      let (outs, _) := go b0 dops []
-      let bf := (drun Gen.RECV_LARGE_MAXSIZE dops b0).2
+          go b' os (show4 (showDOut out) b' :: acc)
+        | .callSeat c o :: os =>
+          let (out, b1) := dstep Gen.RECV_LARGE_MAXSIZE (.call c) b
+          let b' := dseat revs (seatOf [o]) b1
+          go b' os (show4 (showDOut out) b' :: acc)
+        | .recvObs _ none :: os => go b os (show4 "rejected" b :: acc)
+        | .recvObs n (some (o, cls)) :: os =>
+          match daccRecv n o cls b with
+          | some (out, b') => go b' os (show4 (showDOut out) b' :: acc)
+          | none => go b os (show4 "rejected" b :: acc)
+        | .sopA offers o :: os =>
+          let (out, b') := dsopA offers o b
+          go b' os (show4 (showDOut out) b' :: acc)
+      let (outs, bf) := go b0 dops []
       s!"{if outs.isEmpty then "-" else ";".intercalate outs} #{nSF bf.tx.script}"
     | _, _, _, _, _ => "bad-op"
   | _ => "bad-op"
